@@ -64,8 +64,45 @@ func genValueExpr(t *rapid.T) *Expr {
 	}
 }
 
+// genPattern: statement groups around the native<->EVM synchronisation (an inner frame that fails and is
+// tolerated, followed by more activity on the same addresses).
+func genPattern(t *rapid.T) []*Stmt {
+	tgt := genAddrExpr(t)
+	cond := -1
+	if pct(t, 40, "patCond") {
+		cond = unif(t, 4, "patCondV")
+	}
+	first := &Stmt{K: "call", Cond: cond, Target: tgt, Value: genValueExpr(t), OnFail: pick(t, []string{"ignore", "store"}, "patOnfail"), I: 4 + unif(t, 4, "patSlot")}
+	switch unif(t, 3, "patFailHow") {
+	case 0:
+		first.GasCap = pick(t, []uint64{1, 700, 2300}, "patGas") // starves a callee that does real work
+	case 1:
+		first.Bump = true // another selector: may take a reverting branch of the callee
+	default:
+		first.GasCap, first.Bump = 2300, true
+	}
+	second := &Stmt{K: pick(t, []string{"call", "call", "call", "selfdestruct"}, "patSecond"), Cond: cond, Target: tgt, Value: genValueExpr(t), OnFail: "store", I: 4 + unif(t, 4, "patSlot2")}
+	if second.K == "selfdestruct" && second.Cond < 0 {
+		second.Cond = unif(t, 4, "patSdCond")
+	}
+	switch unif(t, 4, "patKind") {
+	case 0: // callee side: pay somebody, then fail
+		return []*Stmt{
+			{K: "call", Cond: -1, Target: &Expr{K: "arg", I: 2}, Value: &Expr{K: "half", A: &Expr{K: "selfbalance"}}, OnFail: "ignore"},
+			{K: pick(t, []string{"revert", "invalid"}, "patEnd"), Cond: unif(t, 4, "patEndCond")},
+		}
+	case 1: // caller side: failing call to arg1 (which may pay arg2 inside), then pay arg2 directly
+		return []*Stmt{first, {K: "call", Cond: cond, Target: &Expr{K: "arg", I: 2}, Value: genValueExpr(t), OnFail: "store", I: 4 + unif(t, 4, "patSlot3")}}
+	default:
+		return []*Stmt{first, second}
+	}
+}
+
 func genProgram(t *rapid.T) *Program {
 	p := &Program{}
+	if pct(t, 35, "usePattern") {
+		p.Stmts = append(p.Stmts, genPattern(t)...)
+	}
 	n := 1 + unif(t, 6, "nStmts")
 	for i := 0; i < n; i++ {
 		s := &Stmt{Cond: -1}
@@ -122,6 +159,9 @@ func (s *GenSource) evmAddrPool(w *World) [][]byte {
 	for _, k := range sortedKeys(w.Contracts) {
 		pool = append(pool, unhx(k))
 	}
+	for _, k := range sortedKeys(w.Dead) {
+		pool = append(pool, unhx(k))
+	}
 	for i := 1; i <= 4; i++ {
 		pool = append(pool, word([]byte{byte(i)})[12:])
 	}
@@ -133,8 +173,14 @@ func (s *GenSource) genCalldata(w *World) []byte {
 	t := s.t
 	pool := s.evmAddrPool(w)
 	data := word([]byte{byte(unif(t, 4, "selector"))})
+	var contracts [][]byte
+	for _, k := range sortedKeys(w.Contracts) {
+		contracts = append(contracts, unhx(k))
+	}
 	for i := 0; i < 3; i++ {
-		if pct(t, 85, "argIsAddr") {
+		if len(contracts) > 0 && pct(t, 30, "argIsContract") {
+			data = append(data, word(pick(t, contracts, "argContract"))...)
+		} else if pct(t, 85, "argIsAddr") {
 			data = append(data, word(pick(t, pool, "argAddr"))...)
 		} else {
 			data = append(data, word(u256(uint64(unif(t, 5000, "argNum"))).Bytes())...)
@@ -166,15 +212,25 @@ func (s *GenSource) genEVMTx(w *World, op string) *txSpec {
 		ks := sortedKeys(w.Contracts)
 		sp.typ = ctypes.TRX_CONTRACT
 		sp.to = unhx(pick(t, ks, "contract"))
+		if ex := sortedKeys(w.Dead); len(ex) > 0 && pct(t, 12, "callExContract") {
+			sp.to = unhx(pick(t, ex, "exContract"))
+		}
 		sp.payload = &ctypes.TrxPayloadContract{Data: s.genCalldata(w)}
 		if pct(t, 55, "callValue") {
 			sp.amount = pick(t, []*uint256.Int{u256(1), u256(1000), u256(uint64(1 + unif(t, 1_000_000, "callVal"))), rigo(1), s.amountFor(w, sp.from, "callAmtKind")}, "callAmt")
 		}
-		sp.note = fmt.Sprintf("call %x(%s) by %s sel=%d value=%s gas=%d", sp.to[:4], w.Contracts[ak(sp.to)], sp.from.Name, sp.payload.(*ctypes.TrxPayloadContract).Data[min(31, len(sp.payload.(*ctypes.TrxPayloadContract).Data)-1)], sp.amount.Dec(), sp.gas)
+		sel := -1
+		if cd := sp.payload.(*ctypes.TrxPayloadContract).Data; len(cd) > 0 {
+			sel = int(cd[min(31, len(cd)-1)])
+		}
+		sp.note = fmt.Sprintf("call %x(%s) by %s sel=%d value=%s gas=%d", sp.to[:4], w.Contracts[ak(sp.to)], sp.from.Name, sel, sp.amount.Dec(), sp.gas)
 	case "transferc":
 		ks := sortedKeys(w.Contracts)
 		sp.typ = ctypes.TRX_TRANSFER
 		sp.to = unhx(pick(t, ks, "contract"))
+		if ex := sortedKeys(w.Dead); len(ex) > 0 && pct(t, 25, "transferExContract") {
+			sp.to = unhx(pick(t, ex, "exContract"))
+		}
 		sp.payload = &ctypes.TrxPayloadAssetTransfer{}
 		sp.amount = pick(t, []*uint256.Int{u256(0), u256(1), u256(uint64(1 + unif(t, 1_000_000, "tcVal"))), rigo(1)}, "tcAmt")
 		sp.note = fmt.Sprintf("transfer to contract %x(%s) by %s amt=%s gas=%d", sp.to[:4], w.Contracts[ak(sp.to)], sp.from.Name, sp.amount.Dec(), sp.gas)
